@@ -421,3 +421,29 @@ Theorem C13_model_is_source_predict :
     (Z.of_nat n <= 1152921504606846975)%Z -> (Z.of_nat (length coeffs) < 18446744073709551616)%Z ->
     src_predict O (dot O) coeffs intercept data (Z.of_nat n) = predict O coeffs intercept data n.
 Proof. exact @tiea_predict. Qed.
+
+(** ** Tie A for [AR::fit] and [AR::new] (regenerated from src/timeseries/autoregressive.rs on every run by
+    tools/tiea/ar_fit_loops.py).  [src_fit] is the method translated statement for statement; the fields (p, coeffs, intercept)
+    of [self] are its first three arguments and, [fit] being a [&mut self] method, its result.  The routines of other files it
+    calls are abstract parameters of the generated text, instantiated by their models: [ts_mean] ([statistics::mean]),
+    [acf_opt] = [acf] (C13_model_is_source_acf: it never panics), [toeplitz_opt] = [toeplitz] (C15_model_is_source_toeplitz),
+    [matmul_z] = [matmul] (C05_model_is_source_matmul) and [inv] = [invert_matrix], in which the model is parametric as well
+    (any function).  The previous contents of the fields do not matter. *)
+From Compute Require Import Generated.ar_fit_loops Proofs.TieA_ar_fit_loops.
+Theorem C13_model_is_source_fit :
+  forall (T : Type) (O : Ops T) (inv : list T -> option (list T)) (p : nat) (coeffs0 : list T) (intercept0 : T) (data : list T),
+    ar_fit_loops.src_fit O (ts_mean O) (acf_opt O) (toeplitz_opt O) inv (matmul_z O) (Z.of_nat p) coeffs0 intercept0 data
+    = option_map (fun '(c, mu) => (Z.of_nat p, c, mu)) (ar_fit O inv p data).
+Proof. exact @tiea_ar_fit. Qed.
+(** [AR::new(p)]: [assert!(p > 0)], then [p] zero coefficients (below the allocation limit of 2^60 - 1 cells) and a zero intercept *)
+Theorem C13_model_is_source_new :
+  forall (T : Type) (O : Ops T) (p : nat), (Z.of_nat p <= 1152921504606846975)%Z ->
+    ar_fit_loops.src_new O (Z.of_nat p) = if 0 <? p then Some (Z.of_nat p, repeat (zero O) p, zero O) else None.
+Proof. exact @tiea_ar_new. Qed.
+(** the constructor followed by [fit] is [ar_new_fit], the function the correspondence check runs *)
+Theorem C13_model_is_source_new_fit :
+  forall (T : Type) (O : Ops T) (inv : list T -> option (list T)) (p : nat) (data : list T), (Z.of_nat p <= 1152921504606846975)%Z ->
+    (let* (p', c0, i0) := ar_fit_loops.src_new O (Z.of_nat p) in
+     ar_fit_loops.src_fit O (ts_mean O) (acf_opt O) (toeplitz_opt O) inv (matmul_z O) p' c0 i0 data)
+    = option_map (fun '(c, mu) => (Z.of_nat p, c, mu)) (ar_new_fit O inv p data).
+Proof. exact @tiea_ar_new_fit. Qed.
